@@ -135,7 +135,16 @@ LifeWant(cur, ev) ==
     [] ev.op = "sum"      -> SAdd(SAdd(cur, a), cur)
     [] ev.op = "prod"     -> SMul(SMul(cur, a), cur)
     [] ev.op = "setu64"   -> a
+    [] ev.op = "inv_from" -> SInv(a)                                          \* receiver distinct from the operand and holding something else
+    [] ev.op = "neg_from" -> SNeg(a)
+    [] ev.op = "sq_from"  -> SMul(a, a)
+    [] ev.op = "cneg_from" -> IF ev.ctrl = 0 THEN a ELSE SNeg(a)
+    [] ev.op = "add2"     -> SAdd(a, a)
+    [] ev.op = "sub2"     -> SSub(0, a)
+    [] ev.op = "mul2"     -> SMul(a, a)
 LifeObsOK(ev, want) ==
+  /\ (Has(ev, "retself") => ev.retself # 0)                                  \* every mutator returns its receiver
+  /\ (Has(ev, "arg_after") /\ ev.arg_after # "" => Is(H(ev.arg), ev.arg_after))   \* and leaves its operand as it was
   /\ Is(want, ev.bytes) /\ ev.bytes_again = ev.bytes /\ ev.copy = ev.bytes /\ ev.other = ev.bytes
   /\ ev.ghalf = FlagOf(SGreaterThanHalfN(want)) /\ ev.copy_ghalf = ev.ghalf /\ ev.other_ghalf = ev.ghalf
   /\ ev.iszero = FlagOf(BigEq(want, 0)) /\ ev.copy_iszero = ev.iszero /\ ev.eqself = 1 /\ ev.eqcopy = 1
